@@ -136,6 +136,18 @@ def check_C08(res, tier, seed, replay):
             for p in [A, gens.reversed_order(A)] + [gens.permuted(rng, A) for _ in range(5)]:
                 lines.append((vlib.graph_line(item, p['n'], p['edges'], 4, extra=['fam=%d' % f, 'gid=%d' % j]), f, j))
                 item += 1
+        # sparse weighted graphs with 40-70 vertices (supports with many signed edges, pruned searches): one abstract graph each,
+        # three presentations, every entry point
+        nmid = 40 if tier == 'quick' else 400
+        for j in range(nhop, nhop + nmid):
+            f = nfam + j % ngroups
+            n = rng.randint(40, 70)
+            A = gens.rand_graph(rng, n, int(2.5 * n), lambda: rng.randint(1, 1000))
+            defs[f].append({'e': 'Def', 'id': j, 'rel': 'base', 'args': [], 'f': 1, 'n': A['n'], 'm': len(A['edges']), 'small': False, 'edges': []})
+            for p in (A, gens.reversed_order(A), gens.permuted(rng, A)):
+                lines.append((vlib.graph_line(item, p['n'], p['edges'], 4, extra=['fam=%d' % f, 'gid=%d' % j]), f, j))
+                item += 1
+        res.cov['mid_size_graphs'] = nmid
         nfiles = nfam + ngroups
         res.cov['families'] = nfam
         res.cov['hop_tie_graphs'] = nhop
